@@ -454,10 +454,10 @@ Definition stmt_text_hash_order_free : Prop :=
    schedule, and the schedule does depend on the hash orders: refuted in TextLevelProofs.v on the
    example text with every collection walked backwards (two assignments swap).  This is the
    run-to-run variation of the Rust program that property C12 allows ("any order the dependencies
-   allow") and ToolSpec.v lists among the things Tool.v does not represent.  NOT proved and not
-   refuted: the same statement restricted to options without per-action lines but with the
-   per-cycle dumps and the disassembly line (the default mode) - it needs a lemma about the text
-   of exec_actions under a reordering that no existing theorem provides. *)
+   allow") and ToolSpec.v lists among the things Tool.v does not represent.  The same
+   statement restricted to options without per-action lines but with the per-cycle dumps and the
+   disassembly line (the default mode) is PROVED in OutputOrderSpec.v / OutputOrderProofs.v
+   (stmt_text_hash_order_same_output_default). *)
 Definition stmt_text_hash_order_same_output_draft : Prop :=
   forall uc f il iu ho ho' utext stmts p p' s0 s0' fuel o,
     text_statements uc utext stmts -> DiagOrderSpec.ord_ok ho -> DiagOrderSpec.ord_ok ho' ->
